@@ -25,8 +25,8 @@ import (
 // TestC15Race drives a node as concurrently as the API allows; the oracle is the Go race detector
 // (the binary is built with -race by the driver; a report makes the test fail).
 func TestC15Race(t *testing.T) {
-	rec := evid.New(t, "C15", "maximally concurrent scenarios under the Go race detector: 3..5 channels (custom transports, TCP-server and UDP-server peers), 3..6 API goroutines mixing all six Write* calls, a router goroutine that edits received frames, calls FixFrame and forwards them with WriteFrameExcept, a consumer, heartbeats every 2-5 ms, stream requests triggered by ArduPilot heartbeats from several senders on several channels, peers connecting and leaving (also while Close is under way), rejected input producing parse-error events, a consumer that keeps the last events and reads them again later, a second node created on the same dialect object in mid-run, and Close racing with all of it; any DATA RACE report whose stack includes a gomavlib package is a violation; non-trivial = >=2 API goroutines and >=2 channel readers active in overlapping intervals (measured from the harness timeline); distinct by hash of the scenario parameters")
-	rec.Require("overlapping-api-and-readers", "close-racing", "tcp-peer-connecting-during-close", "kept-events-read-again", "incoming-key-with-signed-traffic-on-several-links", "read-side-fails-while-a-slow-write-is-in-progress", "listen-only-peers-expiring-while-the-node-writes")
+	rec := evid.New(t, "C15", "maximally concurrent scenarios under the Go race detector: 3..6 channels (custom transports, TCP-server and UDP-server peers, in a third of the cases a UDP broadcast endpoint that a station sends to), 3..6 API goroutines mixing all six Write* calls, a router goroutine that edits received frames, calls FixFrame and forwards them with WriteFrameExcept, a consumer, heartbeats every 2-5 ms, stream requests triggered by ArduPilot heartbeats from several senders on several channels, peers connecting and leaving (also while Close is under way), rejected input producing parse-error events, a consumer that keeps the last events and reads them again later, a second node created on the same dialect object in mid-run, and Close racing with all of it; any DATA RACE report whose stack includes a gomavlib package is a violation; non-trivial = >=2 API goroutines and >=2 channel readers active in overlapping intervals (measured from the harness timeline); distinct by hash of the scenario parameters")
+	rec.Require("overlapping-api-and-readers", "close-racing", "tcp-peer-connecting-during-close", "kept-events-read-again", "incoming-key-with-signed-traffic-on-several-links", "read-side-fails-while-a-slow-write-is-in-progress", "listen-only-peers-expiring-while-the-node-writes", "broadcast-endpoint-read-and-written-at-once")
 	hbLay, _ := ref.LayoutOf(refTypeOf(&minimal.MessageHeartbeat{}))
 	evid.Check(t, rec, evid.N(60, 250), func(t *rapid.T) {
 		drawNodeInit(t)
@@ -58,6 +58,14 @@ func TestC15Race(t *testing.T) {
 		}
 		tcpAddr, udpAddr := sim.Addr(sim.FreePort()), sim.Addr(sim.FreePort())
 		endpoints = append(endpoints, gomavlib.EndpointTCPServer{Address: tcpAddr}, gomavlib.EndpointUDPServer{Address: udpAddr})
+		// a broadcast endpoint: one socket that the node's writer sends heartbeats and fan-out traffic through while
+		// its reader takes in the datagrams of a station
+		bcast := rapid.IntRange(0, 2).Draw(t, "broadcast_endpoint") == 0
+		bcastLocal := sim.Addr(sim.FreePort())
+		desc += fmt.Sprintf(" broadcastEndpoint=%v", bcast)
+		if bcast {
+			endpoints = append(endpoints, gomavlib.EndpointUDPBroadcast{BroadcastAddress: fmt.Sprintf("127.255.255.255:%d", sim.FreePort()), LocalAddress: bcastLocal})
+		}
 		var key *[32]byte
 		if keyed {
 			key = &[32]byte{4, 5, 6}
@@ -332,6 +340,10 @@ func TestC15Race(t *testing.T) {
 			wg.Add(1)
 			go dialPeer("udp4", udpAddr, 5+i)
 		}
+		if bcast {
+			wg.Add(1)
+			go dialPeer("udp4", bcastLocal, 8)
+		}
 		// API goroutines
 		for g := 0; g < napi; g++ {
 			wg.Add(1)
@@ -468,6 +480,9 @@ func TestC15Race(t *testing.T) {
 		var cls []string
 		if slowLink {
 			cls = append(cls, "read-side-fails-while-a-slow-write-is-in-progress")
+		}
+		if bcast {
+			cls = append(cls, "broadcast-endpoint-read-and-written-at-once")
 		}
 		if listenOnly {
 			cls = append(cls, "listen-only-peers-expiring-while-the-node-writes")
